@@ -158,10 +158,28 @@ class Unit:
         return out
 
     def scan_trusted(self, text):
-        """mechanical scan for assumptions in the generated file"""
+        """mechanical scan for assumptions in the generated file; stubs are qualified by the type of the impl block they sit in"""
         out = []
+        impl_at = []                       # (position, type name) of every impl header; a stub belongs to the last impl opened before it that is still open
+        for m in re.finditer(r'^impl(?:<[^>]*>)?\s+(?:[^\n{]*?\bfor\s+)?([A-Za-z0-9_]+)', text, re.M):
+            # end of the impl block: matching brace of the first `{` after the header
+            i = text.find('{', m.end())
+            depth, j = 0, i
+            while j < len(text):
+                if text[j] == '{':
+                    depth += 1
+                elif text[j] == '}':
+                    depth -= 1
+                    if depth == 0:
+                        break
+                j += 1
+            impl_at.append((m.start(), j, m.group(1)))
         for m in re.finditer(r'#\[verifier::external_body\]\s*(?:pub\s+)?(?:broadcast\s+)?(?:proof\s+|exec\s+)?(?:fn|struct|const)\s+([A-Za-z0-9_]+)', text):
-            out.append('external_body:' + m.group(1))
+            owner = ''
+            for a, b, nm in impl_at:
+                if a < m.start() < b:
+                    owner = nm + '::'
+            out.append('external_body:' + owner + m.group(1))
         for m in re.finditer(r'\b(assume|admit)\s*\(', text):
             out.append(m.group(1))
         for m in re.finditer(r'assume_specification', text):
